@@ -561,11 +561,14 @@ check_c01(const gspec_t *g, const dc_result_t *r, int final, const char *cd, con
 
 #include "mc_decode_more.h"
 
+/* The decoder lives across cases, as it does across utterances in use: a case is reported together with the case that
+ * ran before it on the same decoder ("<<after>>"), and a replay runs that one first. */
+static char PREV_CD[1400];
 static int
 run_dcase(const dcase_t *c)
 {
     const gspec_t *g = &GSET[c->g];
-    char cd[1400], gd[600], ud[400];
+    char cd[3000], gd[600], ud[400];
     unsigned char *sym = DC_FRAMESYM;
     int T, nsearched = 0, rc, nontrivial = 0, k;
     size_t nsamp;
@@ -583,7 +586,9 @@ run_dcase(const dcase_t *c)
     if (T == 0)
         sym[0] = 0;
     gs_desc(g, gd, sizeof gd);
-    snprintf(cd, sizeof cd, "conf=%s route=%s pattern=%d grammar{%s} utt{%s}", CONFNAME, ROUTE_NAME[c->route], c->pattern, gd, ud);
+    snprintf(cd, sizeof cd, "conf=%s route=%s pattern=%d grammar{%s} utt{%s}%s%s", CONFNAME, ROUTE_NAME[c->route], c->pattern, gd, ud,
+             PREV_CD[0] ? " <<after>> " : "", PREV_CD);
+    snprintf(PREV_CD, sizeof PREV_CD, "conf=%s route=%s pattern=%d grammar{%s} utt{%s}", CONFNAME, ROUTE_NAME[c->route], c->pattern, gd, ud);
     mc_case_begin(CUR_IDX, cd);
 
     if (c->route == ROUTE_ALIGN) {
@@ -793,6 +798,52 @@ split(const char *s, const char **out, int *n, int max, char *buf, size_t bufn)
     }
 }
 
+/* parse "conf=.. route=R pattern=P grammar{...} utt{...}" (first occurrence of each field) and run it */
+static int
+replay_one(const char *cas)
+{
+    static gspec_t g1;
+    static char wb[256];
+    static char gprev[700];
+    dcase_t c;
+    char rname[32];
+    const char *gp = strstr(cas, "grammar{"), *up = strstr(cas, "utt{"), *rp = strstr(cas, "route="), *pp = strstr(cas, "pattern=");
+    static char gtxt[700], utxt[400];
+    int T;
+    if (!gp || !up || !rp || !pp)
+        return -1;
+    sscanf(rp, "route=%31s", rname);
+    c.pattern = atoi(pp + 8);
+    snprintf(gtxt, sizeof gtxt, "%s", gp + 8);
+    if (!strchr(gtxt, '}'))
+        return -1;
+    *strchr(gtxt, '}') = 0;
+    snprintf(utxt, sizeof utxt, "%s", up + 4);
+    if (!strchr(utxt, '}'))
+        return -1;
+    *strchr(utxt, '}') = 0;
+    /* as in the exploration, the grammar is loaded again only when it differs from the one before */
+    if (strcmp(gtxt, gprev) != 0)
+        CUR_G = -1;
+    snprintf(gprev, sizeof gprev, "%s", gtxt);
+    if (gs_parse(gtxt, &g1, wb, sizeof wb) < 0)
+        return -1;
+    GSET = &g1;
+    NG = 1;
+    c.g = 0;
+    for (c.route = 0; c.route < NROUTES; c.route++)
+        if (strcmp(ROUTE_NAME[c.route], rname) == 0)
+            break;
+    T = utt_parse(utxt, DC_FRAMESYM);
+    if (T < 0)
+        return -1;
+    REPLAY_T = T;
+    REPLAY_UTT = utxt;
+    c.u = -1;
+    run_dcase(&c);
+    return 0;
+}
+
 int
 main(int argc, char **argv)
 {
@@ -866,38 +917,16 @@ main(int argc, char **argv)
     unlink(DICT_PATH);
 
     if (cas) {
-        /* replay: conf=.. route=R pattern=P grammar{...} utt{...} */
-        static gspec_t g1;
-        static char wb[256];
-        dcase_t c;
-        char rname[32];
-        const char *gp = strstr(cas, "grammar{"), *up = strstr(cas, "utt{"), *rp = strstr(cas, "route="), *pp = strstr(cas, "pattern=");
-        char gtxt[700], utxt[400];
-        int T;
-        if (!gp || !up || !rp || !pp)
+        /* replay: conf=.. route=R pattern=P grammar{...} utt{...} [<<after>> the case that ran before it] */
+        const char *aft = strstr(cas, " <<after>> ");
+        if (aft) {
+            mc_mute = 1;
+            if (replay_one(aft + 11) < 0)
+                return 2;
+            mc_mute = 0;
+        }
+        if (replay_one(cas) < 0)
             return 2;
-        sscanf(rp, "route=%31s", rname);
-        c.pattern = atoi(pp + 8);
-        snprintf(gtxt, sizeof gtxt, "%s", gp + 8);
-        *strchr(gtxt, '}') = 0;
-        snprintf(utxt, sizeof utxt, "%s", up + 4);
-        *strchr(utxt, '}') = 0;
-        if (gs_parse(gtxt, &g1, wb, sizeof wb) < 0)
-            return 2;
-        GSET = &g1;
-        NG = 1;
-        c.g = 0;
-        for (c.route = 0; c.route < NROUTES; c.route++)
-            if (strcmp(ROUTE_NAME[c.route], rname) == 0)
-                break;
-        /* the utterance is given explicitly: find its number by parsing into symbols */
-        T = utt_parse(utxt, DC_FRAMESYM);
-        if (T < 0)
-            return 2;
-        REPLAY_T = T;
-        REPLAY_UTT = utxt;
-        c.u = -1;
-        run_dcase(&c);
         mc_finish();
         return 0;
     }
